@@ -94,6 +94,11 @@ theorem encoder_buffer (ctx : Ctx) (pieces : List (List Byte)) :
     simp only [encode, vecBufSize, List.length_cons, List.length_append, List.length_nil]; omega
   simp [this]
 
+/-- the bound 2n+4 is attained (every byte and the CRC need escaping), so no
+smaller buffer would do: payload B2 A8 B2 C5 A8 has CRC B2 in the V1 alphabet -/
+theorem encoder_buffer_tight :
+    (gstuffingV Ctx.v1 [[0xB2#8, 0xA8#8, 0xB2#8, 0xC5#8, 0xA8#8]]).length = 2 * 5 + 4 := by decide +kernel
+
 /-- historical: with the buffer size `2n+2` used before the repair the empty
 payload already needs more room than the buffer has -/
 theorem encoder_buffer_old_witness : ¬ ((gstuffingV Ctx.v1 [[]]).length ≤ 0 * 2 + 2) := by decide
